@@ -322,6 +322,19 @@ func init() {
 					{"zeta", func(p *plonkInstance) { bumpE(&p.Zeta) }},
 					{"last_sigma", func(p *plonkInstance) { bumpE(&p.Open.PlonkSigmas[len(p.Open.PlonkSigmas)-1]) }},
 					{"last_routed_wire", func(p *plonkInstance) { bumpE(&p.Open.Wires[s.NumRoutedWires-1]) }},
+					// the two sides of one round's final comparison made to differ by (-k*2^32, +k):
+					// invisible to a comparison of packed pairs v0 + v1*2^32
+					{"quotient_packed_diff", func(p *plonkInstance) {
+						_, zpn, _ := refVanishing(s, p)
+						zh := ref.ESub(zpn, ref.EOne)
+						if ref.EIsZero(zh) {
+							return
+						}
+						k := uint64(1 + r.Intn(3))
+						d := ref.E{ref.Neg(k << 32), k}
+						i := r.Intn(s.NumChallenges) * s.QDF
+						p.Open.QuotientPolys[i] = ref.EAdd(p.Open.QuotientPolys[i], ref.EDiv(d, zh))
+					}},
 				}
 				if len(pi.Open.PartialProducts) > 0 {
 					perts = append(perts, pert{"partial_product", func(p *plonkInstance) { bumpE(&p.Open.PartialProducts[r.Intn(len(p.Open.PartialProducts))]) }})
